@@ -6,6 +6,7 @@
 package main
 
 import (
+	"runtime"
 	"flag"
 	"fmt"
 	"os"
@@ -101,6 +102,8 @@ func main() {
 	c.R.Done()
 }
 
+const emptyPoolsEvery = 29
+
 // Each runs fn for every case index of this child (or just -only), journalling the
 // index first and turning an escaping panic into a violation of clause "panic".
 func (c *Ctx) Each(fn func(idx int, r *gen.R)) {
@@ -109,6 +112,14 @@ func (c *Ctx) Each(fn func(idx int, r *gen.R)) {
 			continue
 		}
 		c.R.Journal(idx)
+		if idx%emptyPoolsEvery == 0 && c.Prop != "C08" {
+			// every 29th case index starts with the library's object pools emptied (two collections drop what a
+			// sync.Pool holds): what a pooled object does on its FIRST use is then exercised throughout a run, and a case
+			// replayed alone (fresh process) sees the same
+			runtime.GC()
+			runtime.GC()
+			c.R.Add("cases_started_with_emptied_object_pools", 1)
+		}
 		c.one(idx, fn)
 	}
 }
